@@ -191,6 +191,41 @@ def q10b(spec: str) -> str:
     return q.run(_q10b, (spec,))
 
 
+SPECS = ["", "echo hi", "echo hi\n", "a\n\nb\n", "echo \"$HOME\" 'x y'\nfalse\necho not reached\n", "echo ${cores} {memory} {queue}\n", "echo {cores}\necho done",
+         "python - <<'EOF'\nprint('{queue}')\nEOF\n", "  indented\n\ttabbed\n", "#!/bin/sh\n#SBATCH -c 99\n#BSUB -n 99\n#$ -pe smp 99\necho x\n", "echo {std_out} {job_name} {0}\n", "cd /tmp && set +e\n", "echo 'quote\\''\n",
+         "trailing spaces   \n", "\n\n", "echo \u00e9\u4e2d\n"]
+
+
+def _q10g(k):
+    be = q.SHARD["be"]
+    if not q.in_range(k, len(SPECS)):
+        return q.SKIP
+    spec = q.pick(SPECS, k)
+    t = T10B[be]
+    t.spec = spec
+    t.options = {"cores": 1, "memory": "1g", "queue": "normal"} if be == "lsf" else {"cores": 1, "memory": "1g"}
+    script = _ops(be).compile_script(t)
+    tail = spec if spec.endswith("\n") else spec + "\n"
+    if not script.endswith("\n" + tail):
+        return "spec %r does not end the %s script verbatim; the script ends %r" % (spec, be, script[-(len(tail) + 30):])
+    head = script[:len(script) - len(tail)]
+    cmds = [ln for ln in head.split("\n") if ln != "" and not ln.startswith("#")]
+    if len(cmds) < 2 or not cmds[0].startswith("cd ") or cmds[-1] != "set -e":
+        return "commands before the spec are %r" % (cmds,)
+    # directives of the script are gwf's own: the spec's look-alike lines come after the first command
+    own = [d for d in shell.directives(be, head)]
+    if any("99" in d for d in own):
+        return "a directive-looking line of the spec ended up among the directives: %r" % (own,)
+    return ""
+
+
+def q10g(k: int) -> str:
+    """
+    post: _ == ""
+    """
+    return q.run(_q10g, (k,))
+
+
 def setup_q10b(shard):
     for be in BES:
         T10B[be] = Target(name="T", inputs=[], outputs=[], options={}, working_dir=ROOT, spec="")
@@ -423,6 +458,9 @@ QUERIES = [
               "one unknown option at each level or nowhere; values from LEVEL_VALUES; per backend"},
     {"name": "Q10b", "fn": q10b, "setup": setup_q10b, "shards": {"quick": [{"be": b, "maxlen": 4} for b in BES], "thorough": [{"be": b, "maxlen": 6} for b in BES]},
      "timeout": {"quick": 300, "thorough": 1200}, "bound": "spec = symbolic str of length <= 4 (quick) / <= 6 (thorough), any characters"},
+    {"name": "Q10g", "fn": q10g, "setup": setup_q10b, "shards": [{"be": b} for b in BES], "timeout": 300,
+     "bound": "spec catalogue of %d texts (empty, with/without trailing newline, blank lines, quotes and $, a failing command in the middle, here-documents, lines containing {cores}/{memory}/{queue}/{std_out}/{0}, "
+              "lines that look like scheduler directives, non-ASCII): the script ends with the spec verbatim after cd and set -e" % len(SPECS)},
     {"name": "Q10c", "fn": q10c, "e2e": e2e_q10c,
      "shards": {"quick": [{"be": b, "maxn": 2} for b in BES], "thorough": [{"be": b, "maxn": 3, "first": f} for b in BES for f in range(len(ALPHA)) if ALPHA[f] != "\t"]},
      "timeout": {"quick": 400, "thorough": 600},
